@@ -365,7 +365,7 @@ func runC20(c *Ctx) {
 				R.OK("C20.R2", key, cons, pos, "constant")
 			case projectionJoin(st.Val):
 				R.OK("C20.R2", key, cons, pos, "projection of the old value (joined filtered tokens)")
-			case constBuilt(st.Val):
+			case constBuilt(st.Val) || joinedConstants(st.Val):
 				R.OK("C20.R2", key, cons, pos, "assembled from constants only")
 			case vu != nil && strings.Contains(vs, pa.CalleeName(vu)+"("):
 				R.OK("C20.R2", key, cons, pos, "validURL's / the rewriter's result")
@@ -375,7 +375,7 @@ func runC20(c *Ctx) {
 					for _, e := range ph.Edges {
 						es := A.Sym.Of(e)
 						// each merged value on its own merits: URL normalisation, a constant, a projection
-						if !(vu != nil && strings.Contains(es, pa.CalleeName(vu)+"(")) && !isConstStr(e) && !projectionJoin(e) && !constBuilt(e) {
+						if !(vu != nil && strings.Contains(es, pa.CalleeName(vu)+"(")) && !isConstStr(e) && !projectionJoin(e) && !constBuilt(e) && !joinedConstants(e) {
 							all = false
 						}
 					}
@@ -684,4 +684,11 @@ func c20Order(c *Ctx, fn *ssa.Function) {
 	if len(ps) == 0 {
 		R.OK("C20.R5", "order", "(*Policy).sanitizeAttrs", c.P.Pos(fn.Pos()), "no path appends two synthesised attributes with different keys")
 	}
+}
+
+// joinedConstants: strings.Join of a local list that grows only by appends of constants (a rel value assembled token by
+// token).
+func joinedConstants(v ssa.Value) bool {
+	_, ok := joinedList(v)
+	return ok
 }
